@@ -66,6 +66,13 @@ def render(t, uni, backend, style=None, md=None):
             if not name:
                 raise ValueError("backend %s has no collection %s" % (backend, t["a"]))
             return "%s.%s(%r)" % (r(ch[0]), name, t["b"])
+        if k == "CollBad":
+            c = ch[0]
+            name = b["colls"][c["a"]]["py"]
+            if not name:
+                raise ValueError("backend %s has no collection %s" % (backend, c["a"]))
+            args = {"no_bank": "", "two_banks": "%r, %r" % (c["b"], c["b"]), "int_bank": "1"}[t["a"]]
+            return "%s.%s(%s)" % (r(c["ch"][0]), name, args)
         if k == "Meth" and t["a"] in MOMENTS:
             return "%s.%s(%r)" % (r(ch[0]), MOMENTS[t["a"]], t["a"])
         if k == "Meth":
@@ -104,6 +111,11 @@ def render(t, uni, backend, style=None, md=None):
             return "%s[%d]" % (r(ch[0]), t["n"])
         if k == "DictGet":
             return "%s[%r]" % (r(ch[0]), t["a"])
+        if k == "UserFn" and t["d"] == 2:
+            # the other call style with the right number of arguments (Grafts.tla, userfn_wrong_style)
+            if t["b"] == "method":      # declared as a function: called on its first argument
+                return "(%s).%s(%s)" % (r(ch[0]), t["a"], ", ".join(r(c) for c in ch))
+            return "%s(%s)" % (t["a"], ", ".join(r(c) for c in ch[1:]))     # declared as a method: the receiver is gone
         if k == "UserFn" and t["b"] == "method":
             return "%s.%s(%s)" % (r(ch[0]), t["a"], ", ".join(r(c) for c in ch[1:]))
         if k in ("Math", "UserFn"):
@@ -121,6 +133,10 @@ def render(t, uni, backend, style=None, md=None):
             return seqop("Aggregate", r(ch[0]), ["lambda a, v: (a + v)"])
         if k == "AggFunc":
             return seqop("Aggregate", r(ch[0]), ["lambda v: v", "lambda a, v: (a + v)"])
+        if k == "DeltaRN":
+            if t["a"] == "method":
+                return "(%s).DeltaR(%s)" % (r(ch[0]), ", ".join(["1.0"] * t["n"]))
+            return "DeltaR(%s)" % ", ".join([r(ch[0])] + ["1.0"] * (t["n"] - 1))
         if k == "CountExtra":
             return seqop("Count", r(ch[0]), ["1"])
         if k == "FirstPred":
@@ -169,6 +185,18 @@ def bad_metadata(which, backend, b):
     if which == "collection_extra_key":
         d = dict(good_coll)
         d["vp_extra_key"] = 1
+        return d
+    if which == "collection_foreign_key":
+        d = dict(good_coll)
+        if backend == "atlas":
+            d["element_pointer"] = False
+        else:
+            d["link_libraries"] = ["vpForeignLib"]
+        return d
+    if which == "collection_spurious_element":
+        # a singleton (contains_collection false) that names an element type
+        d = dict(good_coll)
+        d["contains_collection"] = False
         return d
     if which == "collection_missing_element":
         d = dict(good_coll)
